@@ -679,6 +679,10 @@ Record nexus_st : Type := mkNS {
 }.
 Definition nexus0 : nexus_st := mkNS 0%Z None None None None "*"%char "-"%char [].
 
+(** treenames, treestrings before a TREES block (nil slices before the first one) *)
+Definition prev_trees (st : nexus_st) : list string * list string :=
+  match ns_trees st with Some x => x | None => ([], []) end.
+
 (** the content of a parsed file as far as trees are concerned *)
 Record nexus_doc : Type := mkDoc { doc_trees : list (string * utree); doc_has_align : bool }.
 
@@ -838,9 +842,9 @@ Section Parse.
                   (* the trees of this block are appended to those of the earlier TREES blocks; each of them is
                      recorded with p.translationTable as it is now (a block without TRANSLATE keeps the table of an
                      earlier block) *)
-                  let '(on, os) := match ns_trees st with Some x => x | None => ([], []) end in
                   main_loop f (mkNS (ns_taxantax st) (ns_taxlabels st)
-                                    (Some (on ++ tnames ts, os ++ tstrings ts)%list) (ttable ts) (ns_data st)
+                                    (Some (fst (prev_trees st) ++ tnames ts, snd (prev_trees st) ++ tstrings ts)%list)
+                                    (ttable ts) (ns_data st)
                                     (ns_missing st) (ns_gap st)
                                     (ns_tabs st ++ map (fun _ => ttable ts) (tnames ts))%list) r4
                 end
